@@ -108,8 +108,10 @@ static void check_b64(Ctx &c, const std::string &data, const char *cls)
 {
     const unsigned char *p = (const unsigned char *)data.data();
     std::string want = ref::b64_encode(p, data.size());
+    static vf::GuardArena ga;  // the array ends exactly at a PROT_NONE page: the encoder may not look at data[n]
+    const char *gp = ga.place(data.data(), data.size());
     vf::Outcome o = vf::guard([&] {
-        ST::string enc = ST::base64_encode(data.data(), data.size());
+        ST::string enc = ST::base64_encode(gp, data.size());
         VF_COUNT("ops");
         if (enc.size() != 4 * ((data.size() + 2) / 3))
             c.fail(strf("base64_encode:length:%s", cls), strf("size %zu for %zu input bytes", enc.size(), data.size()));
@@ -138,8 +140,10 @@ static void check_hex(Ctx &c, const std::string &data, const char *cls)
 {
     const unsigned char *p = (const unsigned char *)data.data();
     std::string want = ref::hex_encode(p, data.size());
+    static vf::GuardArena ga;
+    const char *gp = ga.place(data.data(), data.size());
     vf::Outcome o = vf::guard([&] {
-        ST::string enc = ST::hex_encode(data.data(), data.size());
+        ST::string enc = ST::hex_encode(gp, data.size());
         VF_COUNT("ops");
         if (enc.size() != 2 * data.size()) c.fail(strf("hex_encode:length:%s", cls), strf("size %zu for %zu bytes", enc.size(), data.size()));
         if (std::string(enc.c_str(), enc.size()) != want)
@@ -198,6 +202,7 @@ static void build(vf::Plan &plan, const vf::Opts &o)
     selftest();
     plan.rule = "cases = every byte array of the listed complete domains (each array is distinct); non-trivial = array with at least two different byte values";
     plan.assumptions = {"reference encoders validated against CPython binascii by CRC over the complete 2^24 / 2^16 / 2^8 domains",
+                        "the array handed to the (pointer, size) encoders ends at a PROT_NONE page and is followed by nothing; the char_buffer overloads get the same bytes NUL-terminated",
                         "arrays longer than 3 bytes are covered by the length x content sweeps only (locality of the 3-byte group loop); every length up to the bound is present"};
     for (int n = 3; n >= 1; --n) {
         plan.stage(strf("b64:all-%d-byte-groups(alone+after-full-group)", n), 1ull << (8 * n),
